@@ -590,7 +590,8 @@ def safe_impl(prop, inp):
     try:
         return prop.impl(inp)
     except Exception as e:  # a driver must canonicalise expected exceptions itself
-        return Err("DRIVER:" + type(e).__name__ + ":" + str(e)[:200])
+        msg = "".join(c if 32 <= ord(c) < 127 and c != '"' else "?" for c in str(e)[:200])
+        return Err("DRIVER:" + type(e).__name__ + ":" + msg)
 
 
 def run_property(prop_id, tier="quick", seed=0, verbose=True):
